@@ -430,7 +430,7 @@ def Body.rename (off : Nat) : Body → Body
   | .var v => .var (v + off)
 
 /-- try the rules in order; a cut in a rule body discards the remaining rules and is then spent -/
-def tryRules (uf : Nat) (body : Body → St → Term → Res Out) (args : List Term) (st : St) (l : Term) :
+def tryRules (uf : Nat) (body : Bool → Body → St → Term → Res Out) (args : List Term) (st : St) (l : Term) :
     List Rule → Res (List (St × Term))
   | [] => .ok []
   | r :: rs =>
@@ -439,7 +439,9 @@ def tryRules (uf : Nat) (body : Body → St → Term → Res Out) (args : List T
     | .out => .error .fuel
     | .done none => tryRules uf body args st l rs
     | .done (some σ') =>
-      match body (r.body.rename st.next) { st1 with σ := σ' } l with
+      -- (with push-back the translated body is `Body, S = [pb…|S1]`: its alternation is no
+      --  longer a top-level disjunct of the clause — only matters for `cfg.engine`)
+      match body r.pushback.isNone (r.body.rename st.next) { st1 with σ := σ' } l with
       | .error e => .error e
       | .ok o =>
         -- push-back: what the rule leaves is its push-back list followed by what its body left
@@ -466,7 +468,7 @@ def den (cfg : Cfg) (gr : Grammar) : Nat → Bool → Body → St → Term → R
       | .nt f args =>
         let rules := gr.filter (fun r => r.name = f ∧ r.args.length = args.length)
         if rules.isEmpty then .error (.unsupported ("no rule for " ++ f))
-        else match tryRules cfg.uf (den cfg gr n true) args st l rules with
+        else match tryRules cfg.uf (den cfg gr n) args st l rules with
           | .error e => .error e
           | .ok as => .ok ⟨as, false⟩
       | .late g =>
